@@ -14,23 +14,28 @@
    semantics of a world without any bookkeeping.
 
    `clean W`: the world has no circular dependencies (every unit has a reference result and no
-   result carries the circular-dependency flag).  The general theorems are proved for
-   histories all of whose worlds are clean; worlds with circular dependencies are covered by
-   the finite sweep `C01_incremental_eq_fresh_small_scope` (870 of its 1620 worlds are
-   cyclic).  The full statement that remains unproved in general is:
+   result carries the circular-dependency flag).  Two general theorems:
 
-     forall lintf W0 h, lint_ok lintf -> wf_world W0 ->
-       exists S0 S F, fresh lintf W0 = Ok S0 /\ run_history (analyse lintf) S0 h = Ok S /\
-         fresh lintf (fold_left world_after h W0) = Ok F /\ (memo tables and lint caches agree)
+   * C01_incremental_eq_fresh_partial / _every_step: ARBITRARY analyses (any strategy tree,
+     also one that discards errors), histories all of whose worlds are clean.
+   * C01_incremental_eq_fresh_all_worlds: ALL worlds, circular dependencies included, for
+     analyses that propagate a circular-dependency error (`propagating`: the unit ends with
+     the flag at the first read that answers with the error, and only then -- what `?` does
+     everywhere in the analysis except `analyze_use_clause` for a use clause that is not a
+     selected name).  Both runs compute the static reference `ref W` (Kernel/Ref.v): a unit
+     whose reads reach a cycle ends at its first read of such a unit.
 
-   (without `clean`; in the model the result of a cyclic world depends on the order in which
-   the units are entered, which the sequential model fixes to world order; schedule
-   independence for cyclic worlds is property C04). *)
+   What is not proved, because it is false in the sequential model: equality for analyses
+   that discard the error in worlds with cycles (C01_discarding_errors_breaks_equality: the
+   result of a cycle then depends on where it is entered, and an edit outside the cycle
+   changes the entry point without resetting the cycle).  The finite sweep
+   C01_incremental_eq_fresh_small_scope stays (870 of its 1620 worlds are cyclic). *)
 From Coq Require Import List NArith Arith Bool.
 Import ListNotations.
 From RH Require Import Kernel.World Kernel.Reset Kernel.Incr Kernel.Inv
   Kernel.ClosureProofs Kernel.DenProofs Kernel.SimProofs Kernel.ResetProofs Kernel.IncrProofs
-  Kernel.IncrSweep.
+  Kernel.IncrSweep Kernel.Ref Kernel.RefProofs Kernel.Sim2Proofs Kernel.Reset2Proofs
+  Kernel.Incr2Proofs Kernel.Incr2Examples.
 Open Scope N_scope.
 
 (* get_all_affected never runs out of fuel (fuel = number of edges + 1) and computes exactly
@@ -172,6 +177,89 @@ Proof. exact inv_reachable. Qed.
 Example C01_lint_ok_satisfiable : lint_ok lintf0.
 Proof. exact lintf0_ok. Qed.
 
+(* ======================================================================================== *)
+(* ALL worlds (circular dependencies included), analyses that propagate the error            *)
+
+(* the fuel `length W` decides whether a unit's reads reach a cycle *)
+Theorem C01_den_fuel_bound : forall W, prop_world W ->
+  forall g u e, den g W u = Some e -> den (length W) W u = Some e.
+Proof. exact den_bound. Qed.
+
+(* the analysis computes the static reference result of a unit from any state that satisfies
+   the invariant, in any world: `stk` are the units under analysis, each a registered user of
+   the one above it; no deadlock, no fuel exhaustion *)
+Theorem C01_analysis_computes_reference_all_worlds : forall W, prop_world W -> wf_world W ->
+  forall f stk A v ev, ref W v = Some ev -> good2 W A ->
+  NoDup stk -> incl stk (unit_ids W) -> chain (users_of (a_maps A)) (v :: stk) ->
+  (memo_get (a_memo A) v = None -> ~ In v stk) -> (length W < f + length stk)%nat ->
+  exists A', get_analysis f W stk A v = Ok (A', fst ev)
+    /\ memo_get (a_memo A') v = Some ev /\ good2 W A' /\ ext A A'.
+Proof. exact get_analysis_sim2. Qed.
+
+(* reset covers every changed read, also of units with a circular-dependency result (their
+   reads include the read that failed: make_use_of inserts the edge before the cycle test) *)
+Theorem C01_reset_covers_changed_reads_all_worlds : forall lintf Wo S b,
+  quiescent2 lintf Wo S -> prop_world (world_after Wo b) ->
+  exists rr, reset (a_maps (sast (apply_batch S b))) (added (apply_batch S b)) (removed (apply_batch S b)) = Some rr /\
+    forall x, ref (world_after Wo b) x <> ref Wo x -> In x (rr_all rr).
+Proof. exact reset_covers_changed_reads2. Qed.
+
+Theorem C01_analyse_step_all_worlds : forall lintf Wo S b,
+  lint_ok lintf -> quiescent2 lintf Wo S -> prop_world (world_after Wo b) ->
+  exists S', analyse lintf (apply_batch S b) = Ok S' /\ quiescent2 lintf (world_after Wo b) S'.
+Proof. exact analyse_step2. Qed.
+
+(* MAIN, all worlds: for every history of update batches over worlds of propagating analyses
+   (no other condition: cycles may exist, appear, change and disappear), at every step, the
+   incremental run succeeds and its memo table and lint cache equal those of a project freshly
+   loaded from the current world; both equal the static reference `ref`. *)
+Theorem C01_incremental_eq_fresh_all_worlds : forall lintf W0 h,
+  lint_ok lintf -> wf_world W0 -> prop_world W0 -> worlds_prop W0 h ->
+  forall n, exists S0 S F,
+    fresh lintf W0 = Ok S0 /\
+    run_history (analyse lintf) S0 (firstn n h) = Ok S /\
+    fresh lintf (fold_left world_after (firstn n h) W0) = Ok F /\
+    units S = units F /\
+    (forall x, memo_get (a_memo (sast S)) x = memo_get (a_memo (sast F)) x) /\
+    (forall k, lint_get (lintc S) k = lint_get (lintc F) k) /\
+    (forall x, memo_get (a_memo (sast S)) x = ref (fold_left world_after (firstn n h) W0) x).
+Proof. exact incremental_eq_fresh_all_worlds. Qed.
+
+(* a unit of the incremental run carries the circular-dependency flag iff its reads reach a
+   cycle in the current world (iff the fresh run flags it, by the theorem above) *)
+Theorem C01_no_spurious_cycle_all_worlds : forall lintf W0 h S0 S,
+  lint_ok lintf -> wf_world W0 -> prop_world W0 -> worlds_prop W0 h ->
+  fresh lintf W0 = Ok S0 -> run_history (analyse lintf) S0 h = Ok S ->
+  forall x e, memo_get (a_memo (sast S)) x = Some e ->
+    (r_circ (fst e) = true <-> den (length (fold_left world_after h W0)) (fold_left world_after h W0) x = None).
+Proof. exact no_spurious_cycle_all_worlds. Qed.
+
+(* the hypothesis `propagating` cannot be dropped: three units that discard the error, c uses
+   b, a and b use each other; c is edited to use nothing.  a and b are (rightly) not reset,
+   but a fresh analysis now enters the cycle at a instead of b and gives a another result. *)
+Theorem C01_discarding_errors_breaks_equality :
+  wf_world W_sw /\
+  memo_of (start analyse W_sw h_sw) p0 <> memo_of (fresh lintf0 (fold_left world_after h_sw W_sw)) p0 /\
+  (exists tr, option_map snd (memo_of (start analyse W_sw h_sw) p0) = Some tr /\ In (QUnit (u_slot e1), ACycle) tr) /\
+  (exists tr, option_map snd (memo_of (fresh lintf0 (fold_left world_after h_sw W_sw)) p0) = Some tr /\
+              ~ In (QUnit (u_slot e1), ACycle) tr) /\
+  ~ prop_world W_sw.
+Proof. exact discarding_errors_breaks_equality. Qed.
+
+(* non-vacuity: the programs of the sweep propagate; a world with two cycles (one through
+   `use library.all`) and a 5-step history in which users leave the cycles, the cycles are
+   broken and come back satisfies the hypotheses; the worlds are not clean at the start and at
+   the end, clean in between *)
+Example C01_sprog_propagating : forall reqs tag, propagating (sprog tag reqs).
+Proof. exact sprog_propagating. Qed.
+
+Example C01_all_worlds_hyps_satisfiable :
+  wf_world W_cyc /\ prop_world W_cyc /\ worlds_prop W_cyc h_cyc /\
+  cleanb W_cyc = false /\ cleanb (fold_left world_after h_cyc W_cyc) = false /\
+  cleanb (fold_left world_after (firstn 3 h_cyc) W_cyc) = true /\
+  agrees_with_fresh analyse all_uids all_keys W_cyc h_cyc = true.
+Proof. exact all_worlds_hyps_satisfiable. Qed.
+
 Check C01_incremental_eq_fresh_partial : forall lintf W0 h,
   lint_ok lintf -> wf_world W0 -> clean W0 -> worlds_clean W0 h ->
   exists S0 S F,
@@ -205,3 +293,22 @@ Print Assumptions C01_old_models_fail_small_scope.
 Print Assumptions C01_duplicates_excluded_is_needed.
 Print Assumptions C01_inv_reachable.
 Print Assumptions C01_lint_ok_satisfiable.
+Check C01_incremental_eq_fresh_all_worlds : forall lintf W0 h,
+  lint_ok lintf -> wf_world W0 -> prop_world W0 -> worlds_prop W0 h ->
+  forall n, exists S0 S F,
+    fresh lintf W0 = Ok S0 /\
+    run_history (analyse lintf) S0 (firstn n h) = Ok S /\
+    fresh lintf (fold_left world_after (firstn n h) W0) = Ok F /\
+    units S = units F /\
+    (forall x, memo_get (a_memo (sast S)) x = memo_get (a_memo (sast F)) x) /\
+    (forall k, lint_get (lintc S) k = lint_get (lintc F) k) /\
+    (forall x, memo_get (a_memo (sast S)) x = ref (fold_left world_after (firstn n h) W0) x).
+Print Assumptions C01_den_fuel_bound.
+Print Assumptions C01_analysis_computes_reference_all_worlds.
+Print Assumptions C01_reset_covers_changed_reads_all_worlds.
+Print Assumptions C01_analyse_step_all_worlds.
+Print Assumptions C01_incremental_eq_fresh_all_worlds.
+Print Assumptions C01_no_spurious_cycle_all_worlds.
+Print Assumptions C01_discarding_errors_breaks_equality.
+Print Assumptions C01_sprog_propagating.
+Print Assumptions C01_all_worlds_hyps_satisfiable.
